@@ -3,6 +3,8 @@
 //!   mtv replay <layer> <scripts.ndjson | ->     spec -> impl: run TLC-generated scripts
 //!   mtv drive  <layer> <n> <len> <out.ndjson>   impl -> spec: record random executions
 mod bank;
+mod bech;
+mod builder;
 mod chain;
 mod common;
 mod overlay;
@@ -17,9 +19,13 @@ fn main() {
         ("replay", "overlay") => overlay::replay(a(3)),
         ("replay", "prefixed") => prefixed::replay(a(3)),
         ("replay", "chain") => chain::replay(a(3)),
+        ("replay", "twin") => chain::twin(a(3)),
+        ("replay", "twin-staking") => staking::twin(a(3)),
         ("replay", "staking") => staking::replay(a(3)),
+        ("replay", "builder") => builder::replay(a(3)),
         ("replay", "bank") => bank::replay(a(3)),
         ("drive", "bank") => bank::drive(a(3).parse().unwrap_or(10), a(4).parse().unwrap_or(50), a(5)),
+        ("drive", "bech") => bech::drive(a(3).parse().unwrap_or(5), a(4).parse().unwrap_or(1), a(5)),
         ("drive", "overlay") => overlay::drive(
             a(3).parse().unwrap_or(10),
             a(4).parse().unwrap_or(50),
